@@ -118,9 +118,13 @@ PROPS["C09"] = dict(
     assumptions=["the Gallina mirror of parser.rs is faithful (differential testing only)",
                  "the reference grammar of Spec/Grammar.v is the reading of the property text", OUTSIDE,
                  "native stack exhaustion on deeply nested input is probed (depth 1000 and 20000) but not claimed"],
-    explanation=("PARTIAL proof: the InvalidCharacter clause for De Bruijn notation is a theorem; the main clause "
-                 "(parse = reference parse for every input) is decided by running the reference lexer and recursive-descent "
-                 "parser (Spec/Grammar.v, extracted) and the model against the implementation on the generated inputs."))
+    explanation=("Theorems for EVERY input string and both notations: the model of parse returns the reference parse "
+                 "(reference = lexer automaton + lexical-scoping name resolution + recursive-descent parser of "
+                 "Spec/Grammar.v): Ok(t) exactly when the reference accepts with t, InvalidCharacter(i, c) exactly where the "
+                 "reference lexer meets a character that cannot start a token, some Err otherwise (no truncated parse). "
+                 "Proof: lexer equivalences, convert_classic_tokens = resolve, and get_ast;fold_exprs = recursive descent "
+                 "via balanced-token representation and a relational semantics (sound + complete on both sides). The oracle "
+                 "runs the same reference against the implementation."))
 PROPS["C10"] = dict(
     suites=["print"], oracle_re=r"oracle:C10:", both_glyphs=True, suites_bs=["print"],
     rule=("every term up to 6 / 7 constructors over indices 0..4, random terms up to 40 constructors, hand-built terms "
